@@ -459,4 +459,70 @@ theorem takeWhile_no_qmark_all (p : List Char) (h : '?' ∉ p) : p.takeWhile (·
     have hd : decide (c ≠ '?') = true := by simp [hc]
     simp only [List.cons_append, List.takeWhile_cons, hd, if_true, ih ht]
 
+/-! ### Dot segments
+
+`.` is an unreserved octet: `.`, `%2E` and `%2e` spell the same octet, so `.`, `..`, `%2E`, `%2e%2E`, `.%2E` … spell the
+same segment.  Which segments of a path are dot segments can only be said of the decoded path. -/
+
+/-- `seg` spells a dot segment: `.` or `..`, any of the dots percent-encoded, either hex case -/
+def DotSpelling (seg : List PU) : Prop := Reenc [.lit '.'] seg ∨ Reenc [.lit '.', .lit '.'] seg
+
+theorem dot_sendable : (PU.lit '.').sendable := ⟨by decide, by decide⟩
+
+theorem DotSpelling.sendable {seg : List PU} (h : DotSpelling seg) : ∀ u ∈ seg, u.sendable := by
+  rcases h with h | h
+  · exact h.sendable (by intro u hu; simp only [List.mem_cons, List.not_mem_nil, or_false] at hu; subst hu; exact dot_sendable)
+  · exact h.sendable (by
+      intro u hu
+      simp only [List.mem_cons, List.not_mem_nil, or_false] at hu
+      rcases hu with rfl | rfl <;> exact dot_sendable)
+
+/-- whatever the spelling, a dot segment decodes to `.` or `..` -/
+theorem DotSpelling.dec {seg : List PU} (h : DotSpelling seg) : seg.map PU.dec = ['.'] ∨ seg.map PU.dec = ['.', '.'] := by
+  rcases h with h | h
+  · exact .inl (by rw [h.dec_eq]; rfl)
+  · exact .inr (by rw [h.dec_eq]; rfl)
+
+theorem DotSpelling.ne_nil {seg : List PU} (h : DotSpelling seg) : seg ≠ [] := by
+  rcases h with h | h <;> exact h.ne_nil (by simp)
+
+theorem DotSpelling.byte {seg : List PU} (h : DotSpelling seg) : ∀ u ∈ seg, u.byte := by
+  have aux : ∀ {us us' : List PU}, Reenc us us' → (∀ u ∈ us, u.byte) → ∀ u ∈ us', u.byte := by
+    intro us us' hr
+    induction hr with
+    | nil => intro _ u hu; cases hu
+    | keep u _ ih =>
+      intro hs x hx
+      rcases List.mem_cons.mp hx with rfl | hx
+      · exact hs _ (by simp)
+      · exact ih (fun y hy => hs y (by simp [hy])) x hx
+    | enc c a b _ _ _ _ _ ih =>
+      intro hs x hx
+      rcases List.mem_cons.mp hx with rfl | hx
+      · trivial
+      · exact ih (fun y hy => hs y (by simp [hy])) x hx
+  have hd : (PU.lit '.').byte := by show '.'.toNat < 256; decide
+  rcases h with h | h
+  · exact aux h (by intro u hu; simp only [List.mem_cons, List.not_mem_nil, or_false] at hu; subst hu; exact hd)
+  · exact aux h (by
+      intro u hu
+      simp only [List.mem_cons, List.not_mem_nil, or_false] at hu
+      rcases hu with rfl | rfl <;> exact hd)
+
+/-- the default encoding leaves the dots of a dot segment as they are -/
+theorem DotSpelling.escape_dec {seg : List PU} (h : DotSpelling seg) :
+    escapePathL (seg.map PU.dec) = seg.map PU.dec := by
+  rcases h.dec with e | e <;> rw [e] <;> decide
+
+theorem Reenc.append_right {us us' : List PU} (h : Reenc us us') (post : List PU) : Reenc (us ++ post) (us' ++ post) := by
+  induction h with
+  | nil => exact Reenc.refl _
+  | keep u _ ih => exact .keep u ih
+  | enc c a b hc ha hb ho _ ih => exact .enc c a b hc ha hb ho ih
+
+/-- the default encoding of a byte string decodes to that string -/
+theorem pathUnescapeL_escapePathL (p : List Char) (hb : ∀ c ∈ p, c.toNat < 256) :
+    pathUnescapeL (escapePathL p) = some p := by
+  rw [escapePathL_eq, pathUnescapeL_render _ (sendable_wf (escUnits_sendable _)), escUnits_dec _ hb]
+
 end Heimdall
